@@ -37,25 +37,6 @@ SPECIAL = nw.PRIMS
 GENERIC = [k for k in nw.KINDS if k not in nw.PRIMS]
 
 
-KNOWN_FILE = cm.VERIF / "known_findings_C09.json"
-
-
-def load_known():
-    """status=finding entries for C09: the merged known_findings.json wins (a fixed entry there removes the id)"""
-    out = {}
-    if KNOWN_FILE.exists():
-        for e in json.loads(KNOWN_FILE.read_text())["entries"]:
-            if e.get("property") == PID and e.get("status") == "finding":
-                out[e["id"]] = e
-    for e in cm.load_known(PID):
-        out[e["id"]] = e
-    glob = cm.VERIF / "known_findings.json"
-    if glob.exists():
-        fixed = {e["id"] for e in json.loads(glob.read_text())["entries"] if e.get("status") == "fixed"}
-        out = {k: v for k, v in out.items() if k not in fixed}
-    return out
-
-
 def prim_ok(spec):
     return spec["kind"] in nw.PRIMS and "margin" not in spec
 
@@ -289,7 +270,6 @@ def run(tier, seed, replay=None):
     exprs, idx = [], []
     hist = {}
     path_checks = 0
-    known = load_known()
 
     def bump(k):
         hist[k] = hist.get(k, 0) + 1
@@ -390,7 +370,7 @@ def run(tier, seed, replay=None):
             both = prim_ok(s1) and prim_ok(s2)
             bump("dispatch:" + ("specialized" if both else "generic"))
     try:
-        verdicts = cm.coq_eval_lines(PID, nb.COQ_HEADER, exprs, tag="cert", per_file=20, timeout=1500)
+        verdicts = nb.coq_eval_retry(PID, nb.COQ_HEADER, exprs, "cert", 20, ["theories/Props/C09.vo"])
     except RuntimeError as e:
         R.proof_broken.append(f"checker evaluation failed: {str(e)[:400]}")
         verdicts = []
